@@ -794,6 +794,33 @@ static void fam_c11_repeat(G& g, Plan& p) {
   P0.ops.push_back(mk(OP_giveback_check, -1, fl));
 }
 
+
+// give-back against the clock: whole segments / huge blocks are freed, re-allocated and collected (forced and not) at times spread
+// around the arena purge delay, so that the per-arena and the global purge schedules get out of step; at the end everything is
+// freed and one forced collect must have returned all of it
+static void fam_c11_timed(G& g, Plan& p) {
+  long delay = g.pick({10, 10, 10, 5, 20}); long mult = g.pick({10, 10, 1, 4});
+  if (g.chance(0.5)) { set_env(p, "PURGE_DELAY", delay); set_env(p, "ARENA_PURGE_MULT", mult); } else { delay = 10; mult = 10; }
+  if (g.chance(0.3)) set_env(p, "ARENA_RESERVE", "64MiB");       // several arenas
+  if (g.chance(0.2)) set_env(p, "PURGE_EXTEND_DELAY", g.pick({0, 1, 5}));
+  p.cfg.madv_free_mode = 1; p.cfg.tick_ns = 0;
+  p.progs.resize(1); p.nslots = 40; Program& P = p.progs[0];
+  const uint64_t D = (uint64_t)(delay * mult);     // arena purge delay in ms
+  int n = 25 + (int)g.below(60);
+  for (int i = 0; i < n; i++) {
+    int k = (int)g.below(100); int slot = (int)g.below(12);
+    if (k < 30) P.ops.push_back(mk(OP_malloc, slot, g.chance(0.7) ? 17 * MiB + g.below(20 * MiB) : 1 * MiB + g.below(8 * MiB)));
+    else if (k < 55) P.ops.push_back(mk(OP_free, slot));
+    else if (k < 80) P.ops.push_back(mk(OP_advance, -1, g.pick<uint64_t>({1, D / 4, D / 2, D / 2 + 1, D - 1, D, D + 1, D + D / 2, 2 * D + 3})));
+    else if (k < 90) P.ops.push_back(mk(OP_collect, -1, 0));
+    else if (k < 97) P.ops.push_back(mk(OP_collect, -1, 1));
+    else { P.ops.push_back(mk(OP_malloc, 20 + (int)g.below(10), gen_size(g, SM_SMALL | SM_MEDIUM))); }
+  }
+  P.ops.push_back(mk(OP_verify_all));
+  P.ops.push_back(mk(OP_free_all));
+  P.ops.push_back(mk(OP_giveback_check, -1, 4));     // (footprint repetition rule not used here)
+}
+
 // ---------------------------------------------------------------------------------
 // C18: purge by time, no forced collect
 // ---------------------------------------------------------------------------------
@@ -817,6 +844,29 @@ static void fam_c18_purge(G& g, Plan& p) {
   }
   int nhuge = 0;
   if (W == 1 || W == 2) { nhuge = (many_arenas ? 3 : 2) + (int)g.below(3); for (int i = 0; i < nhuge; i++) P.ops.push_back(mk(OP_malloc, 40 + i, 17 * MiB + g.below(many_arenas ? 12 * MiB : 40 * MiB))); }
+  // staggered: one page is freed, the segment is left alone until that purge has expired, then a second page is freed; the only
+  // later activity in the segment are allocations of fresh pages (no page free, which would re-arm the schedule)
+  const bool staggered = (W == 0) && delay > 0 && g.chance(0.4);
+  if (staggered) {
+    // the freed pages (slots 0, 2, 4: at most 1 MiB each) keep live neighbours (slots 1, 3, 5) so that the freed spans do not
+    // coalesce, and the later fresh pages are larger than any of them: they come from untouched space of the segment. (A page that
+    // is carved out of a span with a pending purge postpones that purge by design: "more allocations are coming".)
+    uint64_t w1 = (uint64_t)delay + (uint64_t)ext + 2 + g.below(20);
+    { Op o = mk(OP_free, 0); o.flags = OPF_WATCH; P.ops.push_back(o); }
+    P.ops.push_back(mk(OP_advance, -1, w1));
+    int nb = 1 + (int)g.below(2);
+    for (int i = 1; i <= nb; i++) { Op o = mk(OP_free, 2 * i); o.flags = OPF_WATCH; P.ops.push_back(o); }
+    int rounds = 3;
+    for (int r = 0; r < rounds; r++) {
+      P.ops.push_back(mk(OP_advance, -1, w1 + g.below(5)));
+      { Op o = mk(OP_malloc, 110 + r, 1536 * KiB + g.below(1024 * KiB)); o.flags = OPF_SENTINEL; P.ops.push_back(o); }   // a fresh page in (normally) the same segment
+      P.ops.push_back(mk(OP_collect, -1, 0));
+      for (int i = 0; i < 4; i++) P.ops.push_back(mk(OP_malloc, 101 + i, 48 + g.below(16)));
+      for (int i = 0; i < 4; i++) P.ops.push_back(mk(OP_free, 101 + i));
+    }
+    P.ops.push_back(mk(OP_purge_check, -1, 1, (uint64_t)rounds, w1 * (uint64_t)rounds));
+    return;
+  }
   // free what is to be watched
   for (int i = 0; i < nwatch; i++) { Op o = mk(OP_free, i); o.flags = OPF_WATCH; P.ops.push_back(o); if (delay == 0) P.ops.push_back(mk(OP_purge_check, -1, 1, 0)); }
   for (int i = 0; i < nhuge; i++) { Op o = mk(OP_free, 40 + i); o.flags = OPF_WATCH; P.ops.push_back(o); if (delay == 0) P.ops.push_back(mk(OP_purge_check, -1, 1, 0)); }
@@ -1406,7 +1456,7 @@ static void fam_c15_reclaim_route(G& g, Plan& p) {
 // C17: hardened builds detect misuse
 // ---------------------------------------------------------------------------------
 static void fam_c17_misuse(G& g, Plan& p) {
-  int nt = g.chance(0.2) ? 2 : 1;
+  int nt = g.chance(0.35) ? 2 : 1;
   p.nslots = 200; p.progs.resize((size_t)nt);
   p.cfg.spurious_p = 0;
   Program& P = p.progs[0];
@@ -1420,11 +1470,11 @@ static void fam_c17_misuse(G& g, Plan& p) {
     if (k < 25) P.ops.push_back(mk(OP_free, slot));
     else if (k < 30) P.ops.push_back(gen_realloc(g, slot, mix, 0, false));
     else if (k < 33) P.ops.push_back(mk(OP_collect, -1, g.below(2)));
-    else if (k < 41) { Op o = mk(kind == 0 ? OP_double_free : kind == 1 ? OP_overflow_byte : OP_corrupt_free_link, slot, g.below(1000000)); if (kind == 0) o.b = g.pick<uint64_t>({0, 1, 1, 2, 2}); P.ops.push_back(o); }
-    else P.ops.push_back(mk(g.chance(0.1) ? OP_zalloc : OP_malloc, slot, g.chance(0.7) ? cls[g.below(cls.size())] : gen_size(g, mix)));
+    else if (k < 41) { Op o = mk(kind == 0 ? OP_double_free : kind == 1 ? OP_overflow_byte : OP_corrupt_free_link, (kind == 1 && nt > 1 && g.chance(0.5)) ? 150 + (int)g.below(40) : slot, g.below(1000000)); if (kind == 0) o.b = g.pick<uint64_t>({0, 1, 1, 2, 2}); P.ops.push_back(o); }
+    else P.ops.push_back(mk(g.chance(0.1) ? OP_zalloc : OP_malloc, slot, g.chance(0.12) ? 1 + g.below(7) : g.chance(0.7) ? cls[g.below(cls.size())] : gen_size(g, mix)));
     if (g.chance(0.02)) kind = (int)g.below(3);
   }
-  if (nt > 1) { P.ops.insert(P.ops.begin() + (long)(P.ops.size() / 2), mk(OP_spawn, 1)); Program& Q = p.progs[1]; for (int i = 0; i < 40; i++) Q.ops.push_back(g.chance(0.6) ? mk(OP_malloc, 150 + (int)g.below(40), cls[0]) : mk(OP_free, 150 + (int)g.below(40))); }
+  if (nt > 1) { P.ops.insert(P.ops.begin() + (long)(P.ops.size() / 2), mk(OP_spawn, 1)); Program& Q = p.progs[1]; for (int i = 0; i < 40; i++) Q.ops.push_back(g.chance(0.7) ? mk(OP_malloc, 150 + (int)g.below(40), g.chance(0.3) ? 1 + g.below(7) : cls[0]) : mk(OP_free, 150 + (int)g.below(40))); }
   P.ops.push_back(mk(OP_verify_all));
 }
 
@@ -1457,6 +1507,7 @@ static const FamilyDef FAMILIES[] = {
   {"c09_adopt_race", "C09", fam_c09_adopt_race, 0, true},
   {"c02_forceabandon", "C02", fam_c02_forceabandon, 0, true},
   {"c15_reclaim_route", "C15", fam_c15_reclaim_route, 0, true},
+  {"c11_timed", "C11", fam_c11_timed, 0, false},
   {"c15_arenas", "C15", fam_c15_arenas, 0, true},
   {"c17_misuse", "C17", fam_c17_misuse, 1, true},
   {"c03_align", "C03", fam_c03_align, 1, false},
